@@ -6,7 +6,7 @@ import subprocess
 import time
 
 CHECK_RE = re.compile(
-    r"^Check (\d+): (\S+)\n\t - Status: (\w+)\n\t - Description: \"(.*?)\"\n\t - Location: (.*?)$",
+    r"^Check (\d+): (.+?)\n\t - Status: (\w+)\n\t - Description: \"(.*?)\"\n\t - Location: (.*?)$",
     re.M | re.S,
 )
 
@@ -15,6 +15,8 @@ class Check:
     __slots__ = ("name", "status", "desc", "loc", "func", "cls")
 
     def __init__(self, name, status, desc, loc):
+        if len(desc) >= 2 and desc[0] == '"' and desc[-1] == '"':
+            desc = desc[1:-1]   # assert!(.., "msg") is printed with its own quotes
         self.name, self.status, self.desc, self.loc = name, status, desc, loc
         m = re.search(r" in function (.*)$", loc)
         self.func = m.group(1).strip() if m else ""
@@ -51,11 +53,20 @@ class Result:
         return len([c for c in self.checks if c.cls != "cover"])
 
 
-def parse_output(res, out):
+def parse_output(res, out, should_panic=False):
+    res.expected_panics = []
     for m in CHECK_RE.finditer(out):
         c = Check(m.group(2), m.group(3), m.group(4), m.group(5).strip())
         res.checks.append(c)
-        if c.cls == "cover":
+        if c.cls == "cover" and c.desc.startswith("never:"):
+            # a cover that must NOT be reachable: SATISFIED is a violation of that clause
+            if c.status == "SATISFIED":
+                res.failed.append(c)
+        elif should_panic and c.cls == "assertion" and c.status == "FAILURE" \
+                and not c.desc.startswith("attempt to "):
+            # (arithmetic-overflow checks are never an *expected* panic: in release they wrap silently)
+            res.expected_panics.append(c)
+        elif c.cls == "cover":
             if c.status == "SATISFIED":
                 res.covers_sat.append(c)
             else:
@@ -91,6 +102,14 @@ def parse_output(res, out):
     if "Status: ERROR" in out or "CBMC failed" in out or "out of memory" in out.lower():
         res.verdict, res.reason = "inconclusive", "CBMC error / out of memory"
         return
+    if should_panic and not res.expected_panics and (ok or failed):
+        res.failed.append(Check("harness.expected_panic.0", "FAILURE",
+                                "expected-panic: the call returned normally where a clean failure is required", ""))
+        res.verdict = "failure"
+        return
+    if should_panic and failed and not res.failed and res.expected_panics and res.undetermined == 0 \
+            and "other than panics" not in out:
+        ok = True
     if ok and not res.failed:
         if res.covers_unsat:
             res.verdict = "inconclusive"
@@ -98,7 +117,7 @@ def parse_output(res, out):
         else:
             res.verdict = "success"
         return
-    if failed and res.failed:
+    if res.failed and (failed or ok):
         res.verdict = "failure"
         return
     if failed:
@@ -132,7 +151,7 @@ def _crate_functions(goto_out):
 
 
 def run_harness(stage, full_name, profile, timeout_s, mem_gb, solver=None,
-                extra_args=(), list_functions=True, keep_target=False):
+                extra_args=(), list_functions=True, keep_target=False, should_panic=False):
     """Run one harness in its own target dir.  profile: 'A' (debug assertions on) | 'R' (off)."""
     res = Result(full_name)
     res.solver = solver or "cadical"
@@ -160,7 +179,7 @@ def run_harness(stage, full_name, profile, timeout_s, mem_gb, solver=None,
     if p.returncode in (124, 137):
         res.verdict, res.reason = "inconclusive", "timeout after %ds" % timeout_s
     else:
-        parse_output(res, out)
+        parse_output(res, out, should_panic)
         if res.verdict == "inconclusive" and not res.reason:
             res.reason = "exit status %d" % p.returncode
     if list_functions and res.verdict in ("success", "failure"):
